@@ -76,6 +76,57 @@ def make_target(ints):
     return m
 
 
+def raw_mol_ints(atoms, bonds):
+    """wire ints of a molecule given as plain data: atoms [(z, isotope|0, charge, radical)] numbered 1.., bonds [(i, j, order)];
+    no valence check (the matcher does not need one), implicit H unknown"""
+    adj = {i: [] for i in range(1, len(atoms) + 1)}
+    for i, j, o in bonds:
+        adj[i].append((j, o))
+        adj[j].append((i, o))
+    out = [len(atoms)]
+    for n, (z, iso, ch, rad) in enumerate(atoms, 1):
+        out += [n, z, iso or 0, ch, int(bool(rad)), -1, -1, len(adj[n])]
+        for m, o in adj[n]:
+            out += [m, o, -1]
+    return out
+
+
+def atom_fields(ints):
+    """offsets of the per-atom records in a wire int list: {atom id: offset of `id`}"""
+    offs, i = {}, 1
+    for _ in range(ints[0]):
+        offs[ints[i]] = i
+        i += 8 + 3 * ints[i + 7]
+    return offs
+
+
+def perturbed_targets(rng, tints, atom):
+    """the same target with ONE attribute of `atom` changed (radical toggled, charge +-1, another isotope): what every
+    atom comparison must be sensitive to. Variants the container cannot hold are dropped."""
+    off = atom_fields(tints)[atom]
+    z, iso, ch, rad = tints[off + 1], tints[off + 2], tints[off + 3], tints[off + 4]
+    variants = [('radical', off + 4, 1 - rad), ('charge', off + 3, ch + 1 if ch < 3 else ch - 1),
+                ('charge', off + 3, ch - 1 if ch > -3 else ch + 1)]
+    try:
+        from chython.periodictable import Element
+        isos = sorted(Element.from_atomic_number(z)().isotopes_distribution)
+        others = [i for i in isos if i != iso]
+        if others:
+            variants.append(('isotope', off + 2, rng.choice(others)))
+        if iso:
+            variants.append(('isotope', off + 2, 0))
+    except Exception:
+        pass
+    for what, pos, val in variants:
+        v = list(tints)
+        v[pos] = val
+        try:
+            make_target(v)
+        except Exception:
+            continue
+        yield what, v
+
+
 def is_query(p):
     from chython.containers import QueryContainer
     return isinstance(p, QueryContainer)
@@ -556,6 +607,7 @@ HAND_SMARTS = [
     '[C]=[C]-[C]=[C]', '[A]:[A]:[A]', '[C]-,=;!@[C]', '[C]!=;!@[C]', '[C]!#[C]', '[C]=;@[C]', '[C]:;@[C]', '[A]~;!@[A]',
     '[A;D1]', '[A;D2]-[A;D3]', '[A;D3;z1]', '[A;h1]', '[A;x2]', '[A;z2]=[A;x1]', '[C,N;D2]', '[C,N,O;D1;h1,h2,h3]', '[C,N;z2;x0,x1]',
     '[C,O;r6]', '[N,O;!R]', '[M;D1]', '[M;D2,D3]', '[M]-[O,N]', '[A;+]', '[A;-]', '[C,N;+]', '[C;D2;x1;z1;h2]',
+    '[N,O]-[C] |^1:0|', '[O]-[C] |^1:0|', '[A]-[C] |^1:0|', '[C,N]-[C,N] |^1:1|', '[O,S;-]-[C]', '[C;+]', '[13C]-[C]',
     '[C]-,=;@[C]', '[C]!-[C]', '[A]!:;@[A]', '[C]-;!@[N,O]', '[C]-;@[N,O]', '[A]-;@[A]-;!@[A]', '[A]1-;@[A]-;@[A]1', '[C]=,#;!@[A]', '[A]1[A][A][A][A]1', '[C][C][C][C][C][C]', '[C]([C])[C]', '[C][O][C]',
 ]
 
@@ -758,6 +810,53 @@ def gen_cases(ctx):
         for _ in range(3):
             parts = [m for _, m in rng.sample(hand, 2)]
             yield f'multi-smarts:{s}', {'smarts': s}, tgt(union(parts)), None
+    # E0. attribute grid: every query-atom class x (plain, charged, radical, isotope) pattern atom against every
+    #     (element, charge, radical, isotope) target atom — the clause "every pattern atom matches its image"
+    heads = [('[C]', ''), ('[C,N]', ''), ('[A]', ''), ('[C;+]', ''), ('[C,N;+]', ''), ('[A;+]', ''), ('[C;-]', ''), ('[C,N;-]', ''),
+             ('[A;-]', ''), ('[C]', ' |^1:0|'), ('[C,N]', ' |^1:0|'), ('[A]', ' |^1:0|'), ('[13C]', ''), ('[13C;+]', ''),
+             ('[13C]', ' |^1:0|'), ('[M]', ''), ('[C,N;+]', ' |^1:0|'), ('[N,O]', ''), ('[N,O]', ' |^1:0|'), ('[Cl,Br]', '')]
+    states = [(0, 0, 0), (0, 1, 0), (0, -1, 0), (0, 0, 1), (13, 0, 0), (13, 1, 0), (13, 0, 1), (0, 1, 1)]
+    tatoms = [(6, iso if z == 6 else 0, ch, rad) for z in (6,) for iso, ch, rad in states] + \
+             [(z, 0, ch, rad) for z in (7, 8, 17, 26) for iso, ch, rad in states if iso == 0]
+    grid_targets = []
+    for k in range(0, len(tatoms), 3):   # a carbon centre carrying three decorated atoms
+        grp = tatoms[k:k + 3]
+        grid_targets.append(raw_mol_ints([(6, 0, 0, 0)] + grp, [(1, i + 2, 1) for i in range(len(grp))]))
+    for head, suffix in heads:
+        for gs in (head + suffix, f'{head}-[C]{suffix}'):
+            for tints in grid_targets:
+                yield f'attr-grid:{gs}', {'smarts': gs}, tints, None
+    for z, iso, ch, rad in ([(6, 0, 0, 0), (6, 0, 1, 0), (6, 0, 0, 1), (6, 13, 0, 0), (7, 0, -1, 0), (8, 0, 0, 1)]):
+        pm = raw_mol_ints([(z, iso, ch, rad), (6, 0, 0, 0)], [(1, 2, 1)])
+        for tints in grid_targets:
+            yield f'attr-grid:mol({z},{iso},{ch},{rad})', {'mol': pm}, tints, None
+    # E1. attribute perturbation: take a pair that matches, change ONE attribute (radical / charge / isotope) of ONE image atom
+    from chython import smarts as _smarts2
+    pert_pool = targets[: (12 if quick else 80)] + hand
+    pert_pats = [{'smarts': x} for x in rng.sample(sm + HAND_SMARTS, 25 if quick else 150)] + \
+                [{'mol': wire.mol_to_ints(f)} for _, f in rng.sample(frags, 8 if quick else len(frags))]
+    for pspec in pert_pats:
+        try:
+            pq = make_pattern(pspec)
+        except Exception:
+            continue
+        if is_query(pq) and has_query_stereo(pq):
+            continue
+        done = 0
+        for tag, m in rng.sample(pert_pool, min(len(pert_pool), 10)):
+            try:
+                hit = next(iter(pq.get_mapping(m, _cython=False) if is_query(pq) else pq.get_mapping(m)), None)
+            except Exception:
+                hit = None
+            if not hit:
+                continue
+            base = wire.mol_to_ints(m)
+            atom = rng.choice(sorted(hit.values()))
+            for what, v in perturbed_targets(rng, base, atom):
+                yield f'attr-perturb:{what}', pspec, v, None
+            done += 1
+            if done >= (1 if quick else 3):
+                break
     # E. empty scope (boundary)
     for tag, m in rng.sample(hand, 4):
         yield f'empty-scope:{tag}', {'mol': wire.mol_to_ints(molgen.parse('C'))}, tgt(m), []
@@ -1242,7 +1341,12 @@ def fresh_small_cases(ctx, n):
             sc = sorted(rng.sample(atoms, rng.randint(1, len(atoms))))
         elif r < 0.34:
             sc = []
-        yield {'pattern': pspec, 'target': wire.mol_to_ints(shuffle_dicts(rng, t)), 'scope': sc}
+        tints = wire.mol_to_ints(shuffle_dicts(rng, t))
+        if rng.random() < 0.3:   # one atom with a changed radical / charge / isotope
+            vs = list(perturbed_targets(rng, tints, rng.choice(atoms)))
+            if vs:
+                tints = rng.choice(vs)[1]
+        yield {'pattern': pspec, 'target': tints, 'scope': sc}
 
 
 def search(ctx):
